@@ -921,6 +921,10 @@ func (x *execCtx) scalarSubquery1(s *Subquery, sc *selectCtx) (Value, error) {
 		return Null{}, nil
 	}
 	if len(rel.cols) == 1 {
+		if x.scalarTypes == nil {
+			x.scalarTypes = map[*Subquery]*Type{}
+		}
+		x.scalarTypes[s] = rel.cols[0].typ
 		return rel.rows[0][0], nil
 	}
 	return Tuple(append([]Value{}, rel.rows[0]...)), nil
